@@ -635,6 +635,9 @@ def run(ck):
 
     ck.repo = canonical(ck.repo, ['tornado/escape.py'], keep_names=('_DEFAULT_AUTOESCAPE',))
 
+    from ..x_valuewalk import expand_result_variable
+
+    ck.repo = expand_result_variable(ck.repo, 'tornado/escape.py', ['utf8', 'to_unicode', 'url_escape', 'url_unescape'])
     guard_obligations(ck, [])
     ck.rule("C21.html", "xhtml_escape = html.escape(to_unicode(value)) with quote escaping; xhtml_unescape = html.unescape(to_unicode(value))")
     ck.rule("C21.json", "every return of json_encode is json.dumps(value) passed through replace('</', R), R '</'-free and JSON-equivalent; json_decode = json.loads(value)")
